@@ -33,9 +33,9 @@ def short(s):
     """one-line rendering of a scenario for messages"""
     f = s["filt"]
     hk = lambda hs: "[" + ",".join("%s/%s" % (h["before"], h["after"]) for h in hs) + "]"
-    return "reg={%s} offers=%s%s filter=%s dialer_hooks=%s acceptor_hooks=%s" % (
+    return "reg={%s} offers=%s%s paths=%s/%s filter=%s dialer_hooks=%s acceptor_hooks=%s" % (
         ",".join(sorted(s["reg"])), "+".join(repr(o) for o in s["offers"]),
-        (" SELF" if s["self"] else "") + (" CLOSED" if s.get("closed") else ""),
+        (" SELF" if s["self"] else "") + (" CLOSED" if s.get("closed") else ""), s.get("cpath", "await"), s.get("spath", "router"),
         ("%s/%s" % (f["v1"], f["v2"])) if f["on"] else "none", hk(s["ch"]), hk(s["sh"]))
 
 
@@ -75,6 +75,10 @@ def sample_full(seed, n):
         s = {"reg": rnd.choice(regs), "offers": rnd.choice(offers), "self": rnd.random() < 0.1, "closed": rnd.random() < 0.04,
              "filt": rnd.choice(filts),
              "ch": rnd.choice(chs), "sh": rnd.choice(shs)}
+        s["cpath"] = rnd.choice(["await", "await", "zrtt"])
+        s["spath"] = rnd.choice(["router", "router", "await", "zrtt"])
+        if s["cpath"] == "zrtt" or s["spath"] != "router":
+            s["filt"] = filts[0]          # the filter is a Router feature; a primed dialer may arrive validated
         k = skey(s)
         if k not in seen:
             seen.add(k)
@@ -107,6 +111,8 @@ def normalise(obs, outs):
     if obs.get("tool_error"):
         raise ToolError("e2e driver: %s" % obs["tool_error"])
     o = dict(obs)
+    if obs.get("zrtt_wanted") and not obs.get("zrtt_used") and o["result"] in ("Ok", "LocallyRejectedAfter"):
+        raise ToolError("the dialer could not use 0-RTT although a priming connection had been made (no session ticket)")
     exp_silent = all(x["result"] == "NoResponse" for x in outs)
     if o["result"] == "NoResponse" and not exp_silent:
         raise ToolError("environment timeout: the dialer got no answer within %d ms where the model expects one of %s"
